@@ -1,5 +1,6 @@
 // ---- prelude/sh_escape_fns.rs: the two real escaping helpers of src/convert/mod.rs under contract ----
-// (needs prelude/sh_escape_models.rs and prelude/sh_escape_posix.rs; verified again in every unit that includes it)
+// (needs prelude/sh_escape_models.rs and prelude/sh_escape_posix.rs; verified again in every unit that includes it;
+//  units/sh_escape.unit.rs carries the same two blocks plus their seeded mutants)
 // R9': `X.replace(c, t)` -> `verif_replace_char(X, c, t)`; assumption: std's str::replace::<char> behaves like
 // the verified loop model (left to right, every occurrence).
 
@@ -7,25 +8,17 @@
 //@   subst "s.replace(" => "verif_replace_char(s, "
 //@   ret r
 //@   sig <<<
-    ensures
-        r@ == sq(s@),
-        // a POSIX shell reads '<r>' as exactly the one word s, nothing interpreted, everything consumed
-        sh_yields(sh_word(seq!['\''] + r@ + seq!['\'']), s@, Seq::<char>::empty()),
+    ensures sq_contract(s@, r@)
 //@   >>>
 //@   body_start <<<
     proof {
         reveal_strlit("'\\''");
         assert("'\\''"@ =~= sq_to());
-        lemma_squote_one_word(s@, Seq::<char>::empty());
-        assert(sh_squote(s@) + Seq::<char>::empty() =~= seq!['\''] + sq(s@) + seq!['\'']);
+        lemma_sq_contract(s@);
     }
 //@   >>>
-//@   mutant sq_no_reopen "\"'\\\\''\"" => "\"'\\\\'\"" expect shell_escape_single_quoted
-//@   mutant sq_no_backslash "\"'\\\\''\"" => "\"'''\"" expect shell_escape_single_quoted
-//@   mutant sq_wrong_char "'\\''" => "'\"'" expect shell_escape_single_quoted
 //@ end
 
-// (mutants of shell_escape_double_quoted are matched against the rewritten call chain)
 //@ extract src/convert/mod.rs :: fn shell_escape_double_quoted
 //@   subst <<<
 s.replace('\\', "\\\\")
@@ -40,10 +33,7 @@ s.replace('\\', "\\\\")
 //@   >>>
 //@   ret r
 //@   sig <<<
-    ensures
-        r@ == dq(s@),
-        // a POSIX shell reads "<r>" as exactly the one word s, nothing expanded, everything consumed
-        sh_yields(sh_word(seq!['"'] + r@ + seq!['"']), s@, Seq::<char>::empty()),
+    ensures dq_contract(s@, r@)
 //@   >>>
 //@   body_start <<<
     proof {
@@ -55,12 +45,7 @@ s.replace('\\', "\\\\")
         assert("\\\""@ =~= seq!['\\', '"']);
         assert("\\$"@ =~= seq!['\\', '$']);
         assert("\\`"@ =~= seq!['\\', '`']);
-        lemma_dquote_one_word(s@, Seq::<char>::empty());
-        assert(sh_dquote(s@) + Seq::<char>::empty() =~= seq!['"'] + dq(s@) + seq!['"']);
+        lemma_dq_contract(s@);
     }
 //@   >>>
-//@   mutant dq_backslash_second "s, '\\\\', \"\\\\\\\\\").as_str(), '\"', \"\\\\\\\"\")" => "s, '\"', \"\\\\\\\"\").as_str(), '\\\\', \"\\\\\\\\\")" expect shell_escape_double_quoted
-//@   mutant dq_dollar_unescaped "'$', \"\\\\$\"" => "'$', \"$\"" expect shell_escape_double_quoted
-//@   mutant dq_backquote_dropped "'`', \"\\\\`\"" => "'`', \"\"" expect shell_escape_double_quoted
-//@   mutant dq_quote_unescaped "'\"', \"\\\\\\\"\"" => "'\"', \"\\\"\"" expect shell_escape_double_quoted
 //@ end
